@@ -49,7 +49,7 @@ def run_model(c, coverage=False):
 def _replay(lines, families, lockstep, repo, procs=16, asrt=False):
     with core.pool(query_replay.worker_init, (repo, asrt), procs) as p:
         size = max(50, min(4000, len(lines) // (procs * 4) + 1))
-        parts = p.map(query_replay.replay_chunk, [(ch, families, lockstep) for ch in core.chunks(lines, size)])
+        parts = core.pmap(p, query_replay.replay_chunk, [(ch, families, lockstep) for ch in core.chunks(lines, size)])
     tot = {"n": 0, "same": 0, "attention": [], "per_kind": {}, "lockstep_diff": [], "dropped": 0}
     for r in parts:
         for k in ("n", "same", "dropped"):
